@@ -150,7 +150,7 @@ def suspend_protocol(n, d0, d1, d2, ram, s, s2, dB, rB, K=12, reassign=True, wan
     return ""
 
 
-def two_suspensions(ramA, ramB, cpuA, cpuB, dA, dB, K=10, want=""):
+def two_suspensions(ramA, ramB, cpuA, cpuB, dA, dB, K=10, same_pipeline=False, tag="C10", want=""):
     """Two 2-operator containers in one pool; each is suspended in the scheduling phase right after
     its first operator finished (first operators last dA / dB ticks, so the two requests come in the
     same or in different ticks).  Each write-out lasts max(1, ram//20) ticks and returns exactly its
@@ -158,10 +158,18 @@ def two_suspensions(ramA, ramB, cpuA, cpuB, dA, dB, K=10, want=""):
     reset_globals()
     ex = Executor(num_pools=1, cpus_per_pool=8, ram_gb_per_pool=300, ticks_per_second=1)
     pool = ex.pools[0]
-    pa, opsA = mk_pipeline("pa", 3, 2, [True], [[seg_ticks(dA, 1)], [seg_ticks(3, 1)]])
-    pb, opsB = mk_pipeline("pb", 3, 2, [True], [[seg_ticks(dB, 1)], [seg_ticks(3, 1)]])
+    if same_pipeline:
+        # one pipeline made of two independent chains A1->A2, B1->B2, split over two containers
+        pp, ops4 = mk_pipeline("pa", 3, 4, [True, False, False, False, False, True],
+                               [[seg_ticks(dA, 1)], [seg_ticks(3, 1)], [seg_ticks(dB, 1)], [seg_ticks(3, 1)]])
+        opsA, opsB = ops4[0:2], ops4[2:4]
+        pidB = "pa"
+    else:
+        pa, opsA = mk_pipeline("pa", 3, 2, [True], [[seg_ticks(dA, 1)], [seg_ticks(3, 1)]])
+        pb, opsB = mk_pipeline("pb", 3, 2, [True], [[seg_ticks(dB, 1)], [seg_ticks(3, 1)]])
+        pidB = "pb"
     aA = Assignment(ops=opsA, cpu=cpuA, ram=ramA, priority=Priority.BATCH_PIPELINE, pool_id=0, pipeline_id="pa")
-    aB = Assignment(ops=opsB, cpu=cpuB, ram=ramB, priority=Priority.BATCH_PIPELINE, pool_id=0, pipeline_id="pb")
+    aB = Assignment(ops=opsB, cpu=cpuB, ram=ramB, priority=Priority.BATCH_PIPELINE, pool_id=0, pipeline_id=pidB)
     WA = ramA // 20 if ramA // 20 >= 1 else 1
     WB = ramB // 20 if ramB // 20 >= 1 else 1
     free_cpu, free_ram = 8 - cpuA - cpuB, 300 - ramA - ramB
@@ -186,10 +194,18 @@ def two_suspensions(ramA, ramB, cpuA, cpuB, dA, dB, K=10, want=""):
         if endA == endB and t == endA:
             seen.add("same_tick")
         if pool.avail_cpu_pool != free_cpu or pool.avail_ram_pool != free_ram:
-            return "C10:free_resources_differ_from_model_with_two_suspensions"
+            return f"{tag}:free_resources_differ_from_model_with_two_suspensions"
         n_sus = (1 if dA <= t < endA else 0) + (1 if dB <= t < endB else 0)
         if len(pool.suspending_containers) != n_sus:
-            return "C10:number_of_suspending_containers_differs_from_model"
+            return f"{tag}:number_of_suspending_containers_differs_from_model"
+        # while a container is still writing out, its unfinished operator stays SUSPENDING (it is still owned by that
+        # live container); once the write-out ended it is PENDING
+        for (ops_, d_, end_) in ((opsA, dA, endA), (opsB, dB, endB)):
+            st = ops_[1].state()
+            if d_ <= t < end_ and st != S.SUSPENDING:
+                return f"{tag}:operator_of_a_container_that_is_still_suspending_was_released"
+            if t >= end_ and t >= d_ and st != S.PENDING:
+                return f"{tag}:unfinished_operator_not_pending_after_suspension"
     if opsA[1].state() != S.PENDING or opsB[1].state() != S.PENDING:
         return "C10:unfinished_operator_not_pending_after_suspension"
     if opsA[0].state() != S.COMPLETED or opsB[0].state() != S.COMPLETED:
